@@ -27,7 +27,7 @@ pub struct Case {
 }
 
 pub fn case() -> impl Strategy<Value = Case> {
-    (scn(3), 0u8..12, 0u8..5, any::<u64>()).prop_map(|(scn, kind, mag, sel)| Case { scn, kind, mag, sel })
+    (scn(3), 0u8..13, 0u8..5, any::<u64>()).prop_map(|(scn, kind, mag, sel)| Case { scn, kind, mag, sel })
 }
 
 /// the request must not be served: Err or abort
@@ -417,6 +417,56 @@ pub fn check_trait<S: Oversize>(c: &Case, ctx: &mut CaseCtx) -> Result<(), Failu
             let o = guard(|| S::PC::commit(&keys.ck, [&lp], Some(&mut r)));
             refused(ctx, S::NAME, "commit", what, &o, || format!("degree {deg} under bound {b}; supported {sup}, max {}, enforced {:?}", info.max_degree, enforced))
         }
+        // ---- a commitment presented to the verifier under a degree bound the key was not trimmed for -----
+        12 => {
+            if !S::HAS_BOUNDS || info.any_bound {
+                return Ok(());
+            }
+            let enforced: Vec<usize> = info.enforced.clone().unwrap_or_default();
+            if enforced.is_empty() {
+                return Ok(());
+            }
+            let d1 = enforced[pick(sel as u16, enforced.len())];
+            let top = *enforced.last().unwrap();
+            let foreign: Vec<usize> = (0..=top + 2).filter(|b| !enforced.contains(b)).collect();
+            if foreign.is_empty() {
+                return Ok(());
+            }
+            // prefer a bound just below the committed one (a verifier that rounds up would take it)
+            let below: Vec<usize> = foreign.iter().cloned().filter(|b| *b < d1).collect();
+            let d = if !below.is_empty() && c.mag % 3 != 0 { below[pick((sel >> 16) as u16, below.len())] } else { foreign[pick((sel >> 16) as u16, foreign.len())] };
+            let deg = pick((sel >> 32) as u16, d1 + 1);
+            let Some(p) = S::uni_poly_of(deg, sel) else { return Ok(()) };
+            let lp = LabeledPolynomial::new("b".into(), p.clone(), Some(d1), None);
+            let mut r = rng(sel);
+            let Out::Ok((cm, st)) = guard(|| S::PC::commit(&keys.ck, [&lp], Some(&mut r))) else { return Ok(()) };
+            let z = sess.point_vals[0].clone();
+            let mut sp = sess.sponge();
+            let Out::Ok(pr) = guard(|| S::PC::open(&keys.ck, [&lp], &cm, &z, &mut sp, &st, None)) else { return Ok(()) };
+            let v = p.evaluate(&z);
+            let honest = guard(|| S::PC::check(&keys.vk, &cm, &z, [v], &pr, &mut sess.sponge(), None));
+            if !accepted(&honest) {
+                return Ok(());
+            }
+            ctx.label("unsupported_degree_bound_presented_to_the_verifier");
+            ctx.label_if(d < d1, "presented_bound_just_below_an_enforced_one");
+            let relabelled = LabeledCommitment::new("b".to_string(), cm[0].commitment().clone(), Some(d));
+            let o = guard(|| S::PC::check(&keys.vk, [&relabelled], &z, [v], &pr, &mut sess.sponge(), None));
+            ctx.asserts += 1;
+            ctx.check(!accepted(&o), sig(P, S::NAME, "check", "unsupported_degree_bound_accepted"), || {
+                format!("commitment made under bound {d1} presented under bound {d} (enforced {enforced:?}): {}", o.describe())
+            })?;
+            let mut qs = std::collections::BTreeSet::new();
+            qs.insert(("b".to_string(), ("z".to_string(), z.clone())));
+            let mut ev = std::collections::BTreeMap::new();
+            ev.insert(("b".to_string(), z.clone()), v);
+            let bp: BatchProof<S> = vec![pr.clone()].into();
+            let mut r2 = rng(sel ^ 1);
+            let o = guard(|| S::PC::batch_check(&keys.vk, [&relabelled], &qs, &ev, &bp, &mut sess.sponge(), &mut r2));
+            ctx.check(!accepted(&o), sig(P, S::NAME, "batch_check", "unsupported_degree_bound_accepted"), || {
+                format!("commitment made under bound {d1} presented under bound {d} (enforced {enforced:?}): {}", o.describe())
+            })
+        }
         // ---- key requested with an enforced bound the parameters / supported degree do not cover -------
         11 => {
             let Some(limit) = S::TRIM_BOUND_LIMIT else { return Ok(()) };
@@ -591,7 +641,7 @@ pub fn spec() -> PropertySpec {
     ));
     PropertySpec {
         id: "C17",
-        rule: "Request kinds x magnitudes around the boundary (supported+1, max+1, 2max+1, supported+2; key variables +1/+2/-2; hiding 0 and beyond the supported hiding bound) inside otherwise valid generated scenarios: a polynomial larger than the key (degree / total degree / number of variables) handed to commit and to open; hiding bound 0, hiding bound beyond the key, hiding without an RNG; points with too few / too many coordinates handed to open and to check; a query for a polynomial that was not supplied, a commitment or an evaluation missing on the verifier side; mismatched labels between polynomial and commitment; trim beyond the parameters; an unsupported or inconsistent degree bound handed to commit (beyond supported / beyond max / not enforced / below the polynomial's degree) and to trim (an enforced-bound list containing, at any position and possibly twice, a bound above the supported degree for SonicKZG10 / above the maximum degree for MarlinKZG10, which by design serves bounds up to max_degree - there the committer must still refuse degrees above the supported degree); setup with degree 0, zero / missing / odd variables; the same for KZG10 and multilinear PST through their inherent APIs. Oracle: the entry point returns Err or aborts - never a commitment, proof or Ok(true). Where a scheme defines the request instead of refusing it (a longer point whose extra coordinates are ignored, an open that does not look at labels) the check demands that whatever is served is sound: no value the polynomial does not take verifies. In-domain requests never aborting is C01's oracle. Non-trivial: magnitude exactly one past the boundary.",
+        rule: "Request kinds x magnitudes around the boundary (supported+1, max+1, 2max+1, supported+2; key variables +1/+2/-2; hiding 0 and beyond the supported hiding bound) inside otherwise valid generated scenarios: a polynomial larger than the key (degree / total degree / number of variables) handed to commit and to open; hiding bound 0, hiding bound beyond the key, hiding without an RNG; points with too few / too many coordinates handed to open and to check; a query for a polynomial that was not supplied, a commitment or an evaluation missing on the verifier side; mismatched labels between polynomial and commitment; trim beyond the parameters; a commitment presented to check / batch_check under a degree bound outside the enforced set (preferably just below the bound it was made for); an unsupported or inconsistent degree bound handed to commit (beyond supported / beyond max / not enforced / below the polynomial's degree) and to trim (an enforced-bound list containing, at any position and possibly twice, a bound above the supported degree for SonicKZG10 / above the maximum degree for MarlinKZG10, which by design serves bounds up to max_degree - there the committer must still refuse degrees above the supported degree); setup with degree 0, zero / missing / odd variables; the same for KZG10 and multilinear PST through their inherent APIs. Oracle: the entry point returns Err or aborts - never a commitment, proof or Ok(true). Where a scheme defines the request instead of refusing it (a longer point whose extra coordinates are ignored, an open that does not look at labels) the check demands that whatever is served is sound: no value the polynomial does not take verifies. In-domain requests never aborting is C01's oracle. Non-trivial: magnitude exactly one past the boundary.",
         assumptions: vec![
             "IPA treats any hiding bound (including 0) as 'hiding' and Ligero parameters do not bound the polynomial size: not out of domain for those schemes",
             "multilinear Ligero / Brakedown verifiers read a point positionally (tensor vectors, inner products that stop at the shorter operand) and the commitment does not record the number of variables: a point lacking its last coordinate is read as if that coordinate were 0, a surplus trailing coordinate only stretches the row tensor (and still verifies for the zero polynomial); accepting the polynomial's value at the zero-padded / truncated point is treated as scheme-defined, any other accepted value is a violation",
